@@ -195,8 +195,8 @@ Regenerated by `extract/lifecycle_shapes.go` into `Gen/Lifecycle.lean`; `Tie/C09
 model assumes. -/
 
 /-- the event loop: what each arm of the `select` receives from, in source order and classified by structure
-    (`serveError` = the channel the serving goroutine sends its error to, `reloadSignal` = a channel obtained from
-    `setupReloadSignal()`, `ctxDone` = `Done()` of a context; anything else verbatim), the label after the loop, every
+    (`serveError` = the channel the serving goroutine sends its error to, `ctxDone` = `Done()` of a context, `chan` = any
+    other channel — that this one reloads is the arm's *role*, `armRole`), the label after the loop, every
     `goto` target in `runServer` -/
 structure LoopShape where
   armChans : List String
@@ -248,7 +248,7 @@ structure ObsShape where
   deriving DecidableEq, Repr
 
 /-- `runSegs`: the select loop is `serve error | SIGHUP → Reload | ctx.Done() → shutdown sequence` -/
-def modelArmChans : List String := ["serveError", "reloadSignal", "ctxDone"]
+def modelArmChans : List String := ["serveError", "chan", "ctxDone"]
 
 /-- the loop is left by `goto` only to the label that follows it (whatever its name) -/
 def LoopShape.ok (l : LoopShape) : Bool :=
